@@ -65,6 +65,7 @@ ATTR = "yaml_path._escaped[segment_index][1]"
 REQ = "call_event('required')"
 SEGC = "call_event('segment')"
 TRV = "call_event('traverse')"
+OPTC = "call_event('optional')"
 KW = {"kw_translated_path": "YAMLPath", "kw_ancestry": "List[Tuple[Any, Any]]"}
 KWP = dict(KW, kw_parent="Any", kw_parentref="Any")
 NC = "Union[NodeCoords, list]"
@@ -574,13 +575,45 @@ class OptionalNodes:
     inline = [YP + "escaped", YP + "unescaped"]
     modifies = ["*"]
     raises = ["YAMLPathException"]
+    # functional part (C01 / C02 / C09), one level of the recursion:
+    #  * past the last segment: exactly the node it was given, with the coordinates it was given;
+    #  * every result of the dispatcher for segment `depth` is followed up ONCE at depth + 1 on that result's own node,
+    #    parent, reference, path and ancestry (a virtual list result keeps the incoming coordinates; a null result of
+    #    the last segment is yielded as it is), the follow-up's yields are relayed unchanged, nothing else is yielded in
+    #    that pass, and the match counter goes up by one;
+    #  * padding appends one element per pass (invariant), so a sequence grows exactly up to the requested index.
+    ensures = [
+        "implies(depth >= seg_count(yaml_path), len(out) == 1 and out[0].node is data and same(out[0].parent, parent) "
+        "and same(out[0].parentref, parentref) and out[0].path is translated_path and out[0].ancestry is ancestry "
+        "and same(out[0].path_segment, relay_segment))",
+    ]
     loops = {
         "for _ in range(len(data) - 1, newidx)": {
             "ghost": {"n0": "len(data)"},
             "invariant": ["len(data) == n0 + iters"],
         },
+        "for next_coord in self._get_nodes_by_path_segment(data, yaml_path, depth, parent=parent, parentref=parentref, "
+        "translated_path=translated_path, ancestry=ancestry)": {"body_ensures": [
+            "matched_nodes == pre_matched_nodes + 1",
+            "implies(isinstance(next_coord, list), called('optional') == 1 and %s[1] is next_coord and %s[3] == depth + 1 "
+            "and same(%s[4], parent) and same(%s[5], parentref) and %s[6] is translated_path and %s[7] is ancestry)"
+            % (OPTC, OPTC, OPTC, OPTC, OPTC, OPTC),
+            "implies(not isinstance(next_coord, list) and not (next_coord.node is None and depth + 1 >= seg_count(yaml_path)), "
+            "called('optional') == 1 and %s[1] is next_coord.node and %s[3] == depth + 1 and %s[4] is next_coord.parent "
+            "and same(%s[5], next_coord.parentref) and %s[6] is next_coord.path and %s[7] is next_coord.ancestry)"
+            % (OPTC, OPTC, OPTC, OPTC, OPTC, OPTC),
+            "implies(not isinstance(next_coord, list) and next_coord.node is None and depth + 1 >= seg_count(yaml_path), "
+            "called('optional') == 0 and len(yielded) == 1 and yielded[0] is next_coord)",
+            "implies(called('optional') == 1, len(yielded) == 0 and same(%s[2], value) and same(%s[8], pathseg))" % (OPTC, OPTC)]},
+        "for node_coord in self._get_optional_nodes(next_coord, yaml_path, value, depth + 1, parent=parent, parentref=parentref, "
+        "translated_path=translated_path, ancestry=ancestry, relay_segment=pathseg)": {
+            "sole_yielder": True, "body_ensures": ["len(yielded) == 1 and yielded[0] is node_coord"]},
+        "for node_coord in self._get_optional_nodes(next_coord.node, yaml_path, value, depth + 1, parent=next_coord.parent, "
+        "parentref=next_coord.parentref, translated_path=next_coord.path, ancestry=next_coord.ancestry, relay_segment=pathseg)": {
+            "sole_yielder": True, "body_ensures": ["len(yielded) == 1 and yielded[0] is node_coord"]},
     }
-    opts = dict(SEG_INV, yields="NodeCoords", decreases="len(yaml_path) - depth", event="('optional', data, yaml_path)")
+    opts = dict(SEG_INV, yields="NodeCoords", decreases="len(yaml_path) - depth",
+                event="('optional', data, value, depth, kw_parent, kw_parentref, kw_translated_path, kw_ancestry, kw_relay_segment)")
 
 
 for _name in ("_has_concrete_child", "_has_anchored_child"):
